@@ -6,7 +6,7 @@ from ..gen import G, WINDOW, fmt_date_layout, LAYOUTS
 from ..common import run_apps, app, out_of, sig
 from ..core import unhx
 
-THEOREMS = ['interval_exact', 'inverted_is_empty', 'filter_eq_delete', 'innermost_wins', 'keywords', 'summary_selects_day', 'summary_date_selects_day', 'day_count_advances', 'yesterday_is_previous_day', 'parsed_date_is_calendar_day', 'instants_order_is_calendar_order', 'period_is_calendar_interval', 'day_number_reads_back', 'summary_date_is_that_day']
+THEOREMS = ['interval_exact', 'inverted_is_empty', 'filter_eq_delete', 'innermost_wins', 'keywords', 'summary_selects_day', 'summary_date_selects_day', 'day_count_advances', 'yesterday_is_previous_day', 'parsed_date_is_calendar_day', 'instants_order_is_calendar_order', 'period_is_calendar_interval', 'day_number_reads_back', 'summary_date_is_that_day', 'mixed_levels_keep_both', 'bounds_independent']
 LEVEL = 'proof'
 RULE = ('logs with days in any order and repeated dates x every (begin, end) over a 5-day window incl. absent / equal / inverted / outside x '
         '{reg, bal, csv log, print, report totals / quantity / unresolved} x the command\'s other switches (single element / food, old and left-aligned layouts, totals-only, collapse modes, --desc) x flag position {global, sub-command, both with different values, one bound on each level} x keywords '
@@ -154,7 +154,14 @@ def gen(g, nlogs, tier):
                 if layout != '2006/01/02':
                     gf['dateFormat'] = layout
                 kept = [(dd, ents, ns) for dd, ents, ns in log if dd == d]
-                a = app(['summary'], {b'food.yaml': bookfile, b'log.yaml': render(g, log, layout)}, args=(arg,), g=gf, kind='summary', tz=tz, today_date=today)
+                ga = dict(gf)
+                if r.random() < 0.4:
+                    # a period given globally does not apply to `summary`: the argument names the day
+                    if r.random() < 0.7:
+                        ga['begin'] = r.choice([fmt(r.choice(DAYS)), 'last7', 'yesterday'])
+                    if r.random() < 0.7:
+                        ga['end'] = r.choice([fmt(r.choice(DAYS)), 'today', 'yesterday'])
+                a = app(['summary'], {b'food.yaml': bookfile, b'log.yaml': render(g, log, layout)}, args=(arg,), g=ga, kind='summary', tz=tz, today_date=today)
                 # summary of the file that holds only that day, asked for the same day
                 k = app(['summary'], {b'food.yaml': bookfile, b'log.yaml': render(g, kept, layout)}, args=(arg,), g=gf, kind='summary (deleted)', tz=tz, today_date=today)
                 a.meta.update({'pair': k, 'b': arg, 'e': 'summary', 'pos': 'arg', 'log': log, 'summary_day': d, 'kept': kept, 'kept_days': kept, 'layout': layout})
